@@ -33,6 +33,8 @@ from vsim.runner import Harness
 from vsim.sock import Delivery, SimNet, SimSocket
 from vsim.world import Deadlock, HarnessError, Violation, World
 
+from easynetwork.lowlevel.api_async.transports.utils import aclose_forcefully
+
 PROPERTY = "C20"
 LEVEL = "exploration"
 RULE = (
@@ -79,7 +81,7 @@ class _Sender:
         self.finished = False
         self.error: BaseException | None = None
 
-_LOCAL_EVENTS = ("cancel", "aclose")  # performed by the application task; everything else is the remote side / the kernel
+_LOCAL_EVENTS = ("cancel", "aclose", "aclose_cancel")  # performed by the application task; everything else is the remote side / the kernel
 
 
 def _draw_events(world: World, n: int, kinds: tuple[str, ...], nsenders: int) -> list[tuple[float, str, int, int, str]]:
@@ -100,6 +102,19 @@ def _draw_events(world: World, n: int, kinds: tuple[str, ...], nsenders: int) ->
         events.append((when, kind, who, yields, via))
     events.sort(key=lambda e: e[0])  # stable: equal times keep draw order
     return events
+
+async def _forced_close(world: World, transport: Any, k: int, name: str) -> None:
+    """local aclose() that is cancelled after k loop turns: k == 0 is aclose_forcefully() (cancel scope with a deadline in the
+    past: aclose() runs up to its first checkpoint), k > 0 cancels the task running aclose() after k turns of the loop"""
+    if k <= 0:
+        await aclose_forcefully(transport)
+        return
+    loop = asyncio.get_running_loop()
+    t = loop.create_task(transport.aclose(), name=name)
+    for _ in range(k):
+        await asyncio.sleep(0)
+    t.cancel()
+    await asyncio.gather(t, return_exceptions=True)
 
 
 def _check_fatal(world: World) -> None:
@@ -167,9 +182,9 @@ def _h_stream(world: World) -> None:
 
     # events
     nevents = 0 if baseline else world.choose("nevents", 6)
-    events = _draw_events(world, nevents, ("resume", "pause", "cancel", "rst", "aclose", "fin", "slow"), nsenders)
+    events = _draw_events(world, nevents, ("resume", "pause", "cancel", "rst", "aclose", "fin", "slow", "aclose_cancel"), nsenders)
 
-    st: dict[str, Any] = {"issued": 0, "lost": False, "closing": False, "closer": None, "rst": False, "write_failed": False}
+    st: dict[str, Any] = {"issued": 0, "lost": False, "closing": False, "closer": None, "rst": False, "write_failed": False, "forced": False, "forcer": None}
     # fault "the socket write itself fails": from send call n on the OS refuses the bytes (ECONNRESET / EPIPE).  The loss is
     # noticed BY the write (inside transport.write()/writelines() of some send, or by the flush of a suspended one) in the
     # same loop step: asyncio marks the transport closing and only *schedules* connection_lost().
@@ -305,6 +320,13 @@ def _h_stream(world: World) -> None:
                         if any(s.in_send for s in senders):
                             world.probe("aclose_with_suspended_senders")
                         st["closer"] = loop.create_task(transport.aclose(), name="c20-closer")
+                elif kind == "aclose_cancel":
+                    if st["forcer"] is None:
+                        st["closing"] = st["forced"] = True
+                        world.fault("cancel_at_iteration")
+                        if any(s.in_send for s in senders):
+                            world.probe("forced_close_with_suspended_senders")
+                        st["forcer"] = loop.create_task(_forced_close(world, transport, who - 1, "c20-closer-cancelled"), name="c20-forcer")
 
             for when, kind, who, yields, via in events:
                 if via == "world":
@@ -321,7 +343,11 @@ def _h_stream(world: World) -> None:
             await asyncio.sleep(1 / 64)  # world-side events scheduled for this instant run inside the next select()
             _check_fatal(world)
             # ---- after the last fault: the peer reads again (unless the connection is gone)
-            if not st["lost"]:
+            # -- except after a forced local close (aclose() cancelled): the transport must have been torn down, so every
+            #    suspended sender has to END (with an error) even if the peer never reads again
+            if st["forced"] and not st["lost"]:
+                set_peer("stopped")
+            elif not st["lost"]:
                 set_peer("reads")
             suspended = [s.idx for s in senders if s.in_send]
             if len(suspended) >= 2:
@@ -332,15 +358,17 @@ def _h_stream(world: World) -> None:
             _check_fatal(world)
             if not ok:
                 stuck = [s.idx for s in senders if s.task is not None and not s.task.done()]
-                if st["lost"]:
+                if st["forced"] and not st["lost"]:
+                    clause, key = "fail-after-forced-close", "C20/stream/stranded-after-forced-close"
+                elif st["lost"]:
                     clause, key = "fail-on-connection-loss", "C20/stream/stranded-after-connection-loss"
                 elif any(s.cancelled_by_harness for s in senders):
                     clause, key = "cancel-does-not-strand", "C20/stream/stranded-after-cancel"
                 else:
                     clause, key = "resumed-when-peer-reads", "C20/stream/stranded-after-resume"
-                if st["closing"]:
+                if st["closing"] and not (st["forced"] and not st["lost"]):
                     key += "/local-aclose"
-                raise Violation(clause, f"senders {stuck} are still suspended {bound} virtual seconds after the last event although {'the connection was lost' if st['lost'] else 'the peer reads again'}; {describe()}", key=key)
+                raise Violation(clause, f"senders {stuck} are still suspended {bound} virtual seconds after the last event although {'the connection was lost' if st['lost'] else 'the local aclose() was cancelled (forced close, peer not reading)' if st['forced'] else 'the peer reads again'}; {describe()}", key=key)
             for s in senders:
                 assert s.task is not None
                 if s.task.cancelled():
@@ -366,6 +394,8 @@ def _h_stream(world: World) -> None:
             if st["closer"] is not None:
                 done, _ = await asyncio.wait([st["closer"]], timeout=bound)
                 if not done:
+                    if st["forced"] and not st["lost"]:
+                        raise Violation("fail-after-forced-close", f"a second, uncancelled aclose() did not complete {bound} virtual seconds after the first one was cancelled (forced close, peer not reading); {describe()}", key="C20/stream/stranded-after-forced-close/aclose-task")
                     raise Violation("resumed-when-peer-reads", f"aclose() did not complete {bound} virtual seconds after the peer read everything; {describe()}", key="C20/stream/aclose-stranded")
                 st["closer"].result()
         finally:
@@ -373,9 +403,10 @@ def _h_stream(world: World) -> None:
                 if s.task is not None and not s.task.done():
                     s.task.cancel()
             await asyncio.gather(*[s.task for s in senders if s.task is not None], return_exceptions=True)
-            if st["closer"] is not None and not st["closer"].done():
-                st["closer"].cancel()
-                await asyncio.gather(st["closer"], return_exceptions=True)
+            for key_ in ("closer", "forcer"):
+                if st[key_] is not None and not st[key_].done():
+                    st[key_].cancel()
+                    await asyncio.gather(st[key_], return_exceptions=True)
             from easynetwork.lowlevel.api_async.transports.utils import aclose_forcefully
 
             await aclose_forcefully(transport)
@@ -400,8 +431,14 @@ def _h_dgram(world: World, flavour: str) -> None:
     baseline = world.choose("swarm.faults", 3) == 0  # a third of the runs: socket always writable, no events
     room0 = None if baseline else world.pick("room0", (0, 0, 1, 3, None))
     nevents = 0 if baseline else world.choose("nevents", 6)
-    events = _draw_events(world, nevents, ("open", "room", "block", "cancel", "aclose"), nsenders)
-    st: dict[str, Any] = {"closing": False, "closer": None, "sock": None}
+    kinds: tuple[str, ...] = ("open", "room", "block", "cancel", "aclose", "aclose_cancel")
+    if flavour == "listener" and getattr(world, "avoid_known", True):
+        # finding C20/dgram-listener/stranded-after-forced-close* (DatagramListenerSocketAdapter.aclose() has no abort when it
+        # is cancelled, unlike the stream adapter and the datagram endpoint): input class = "a cancelled local aclose() on the
+        # datagram listener"; 80 % of the runs do not generate it so that it cannot shadow the rest of the harness
+        kinds = kinds[:-1]
+    events = _draw_events(world, nevents, kinds, nsenders)
+    st: dict[str, Any] = {"closing": False, "closer": None, "sock": None, "forced": False, "forcer": None}
     # fault "sendto itself fails" (ECONNREFUSED / EPIPE / ECONNRESET for calls n .. n+k-1).  asyncio's datagram transport reports an
     # OSError of sendto through protocol.error_received() and stays open: the connection is NOT lost, so the property only
     # demands that nobody is stranded and that the other sends complete (nothing about the failed datagram itself).
@@ -511,6 +548,13 @@ def _h_dgram(world: World, flavour: str) -> None:
                         if any(s.in_send for s in senders):
                             world.probe("aclose_with_suspended_senders")
                         st["closer"] = loop.create_task(transport.aclose(), name="c20-dcloser")
+                elif kind == "aclose_cancel":
+                    if st["forcer"] is None:
+                        st["closing"] = st["forced"] = True
+                        world.fault("cancel_at_iteration")
+                        if any(s.in_send for s in senders):
+                            world.probe("forced_close_with_suspended_senders")
+                        st["forcer"] = loop.create_task(_forced_close(world, transport, who - 1, "c20-dcloser-cancelled"), name="c20-dforcer")
                 if sum(1 for s in senders if s.in_send) >= 2:
                     world.probe("several_suspended")
 
@@ -531,20 +575,24 @@ def _h_dgram(world: World, flavour: str) -> None:
             # ---- after the last fault the socket accepts datagrams again
             if sum(1 for s in senders if s.in_send) >= 2:
                 world.probe("several_suspended_at_last_fault")
-            sock.dgram_send_room = None
+            # -- except after a forced local close (aclose() cancelled): every suspended sender has to END even if the
+            #    socket never accepts a datagram again
+            sock.dgram_send_room = 0 if st["forced"] else None
             tasks = [s.task for s in senders if s.task is not None]
             bound = 30.0
             ok = await wait_until(world, lambda: all(t.done() for t in tasks) or world.fatal is not None, max_time=bound, step=0.25)
             _check_fatal(world)
             if not ok:
                 stuck = [s.idx for s in senders if s.task is not None and not s.task.done()]
-                if any(s.cancelled_by_harness for s in senders):
+                if st["forced"]:
+                    clause, key = "fail-after-forced-close", f"C20/dgram-{flavour}/stranded-after-forced-close"
+                elif any(s.cancelled_by_harness for s in senders):
                     clause, key = "cancel-does-not-strand", f"C20/dgram-{flavour}/stranded-after-cancel"
                 else:
                     clause, key = "resumed-when-writable", f"C20/dgram-{flavour}/stranded-after-resume"
-                if st["closing"]:
+                if st["closing"] and not st["forced"]:
                     key += "/local-aclose"
-                raise Violation(clause, f"senders {stuck} are still suspended {bound} virtual seconds after the socket accepts datagrams again; {describe()}", key=key)
+                raise Violation(clause, f"senders {stuck} are still suspended {bound} virtual seconds after {'the local aclose() was cancelled (forced close, socket still full)' if st['forced'] else 'the socket accepts datagrams again'}; {describe()}", key=key)
             for s in senders:
                 assert s.task is not None
                 if s.task.cancelled():
@@ -564,6 +612,8 @@ def _h_dgram(world: World, flavour: str) -> None:
             if st["closer"] is not None:
                 done, _ = await asyncio.wait([st["closer"]], timeout=bound)
                 if not done:
+                    if st["forced"]:
+                        raise Violation("fail-after-forced-close", f"a second, uncancelled aclose() did not complete {bound} virtual seconds after the first one was cancelled (forced close, socket still full); {describe()}", key=f"C20/dgram-{flavour}/stranded-after-forced-close/aclose-task")
                     raise Violation("resumed-when-writable", f"aclose() did not complete {bound} virtual seconds after the socket became writable; {describe()}", key=f"C20/dgram-{flavour}/aclose-stranded")
                 st["closer"].result()
         finally:
@@ -571,9 +621,10 @@ def _h_dgram(world: World, flavour: str) -> None:
                 if s.task is not None and not s.task.done():
                     s.task.cancel()
             await asyncio.gather(*[s.task for s in senders if s.task is not None], return_exceptions=True)
-            if st["closer"] is not None and not st["closer"].done():
-                st["closer"].cancel()
-                await asyncio.gather(st["closer"], return_exceptions=True)
+            for key_ in ("closer", "forcer"):
+                if st[key_] is not None and not st[key_].done():
+                    st[key_].cancel()
+                    await asyncio.gather(st[key_], return_exceptions=True)
             sock.dgram_send_room = None
             from easynetwork.lowlevel.api_async.transports.utils import aclose_forcefully
 
